@@ -216,6 +216,10 @@ PressChar(m, k) ==
       amb == Cardinality({c.c : c \in acts}) > 1
       \* the literal text and an expansion coincide: what zippychord did cannot be told from the text
       ambLit == acts # {} /\ \E c \in matching : c.kind = "lit"
+      \* the punctuation key that deletes a smart space is itself a key of some chord of the dictionary and is typed
+      \* literally (as the possible beginning of that chord); decided by the configuration and the history, not by what
+      \* the garbled text looks like.  A punctuation key that COMPLETES a (follow-up) chord is not this situation.
+      punctChordKey == isPunct /\ \E c \in Chains(p) : k \in KeysOf(c)
       sharpDup == m.dn /\ ph1 = "S" /\ ~boundary
       share(c) == LET o == OutOf(p, c) IN (m.fa > 0 \/ Len(c) > 1) /\ m.fo # <<>> /\ o # <<>> /\ m.fo[1] = o[1]
       sameHold(c) == m.cn /\ Len(c) > 1
@@ -250,8 +254,8 @@ PressChar(m, k) ==
                         THEN (IF boundary /\ sharpWantsAct THEN "X"
                               ELSE IF partialTop \/ (partialCtx /\ ctxOk) THEN "S" ELSE "M")
                         ELSE ph1,
-                 \* fq: the punctuation key that deleted a smart space is itself a key of a top-level chord
-                 !.good = FALSE, !.fx = @ \/ sharpDup, !.fu = @ \/ isPunct, !.fq = @ \/ (isPunct /\ partialTop), !.fc = @ \/ (m.ctx # <<>> /\ partialCtx /\ ~partialTop)]
+                 \* fq: the punctuation key that deleted a smart space is itself a key of a chord (punctChordKey)
+                 !.good = FALSE, !.fx = @ \/ sharpDup, !.fu = @ \/ isPunct, !.fq = @ \/ punctChordKey, !.fc = @ \/ (m.ctx # <<>> /\ partialCtx /\ ~partialTop)]
 
 ReleaseChar(m, k) ==
   LET p == m.p
